@@ -100,6 +100,7 @@ MUTANTS = [  # (contract module, qualname, file, regex, replacement, expect)  ex
  ("contracts.c14", "FactorGraph.to_markov_model", "pgmpy/models/FactorGraph.py", r"if len\(set\(self.nodes\(\)\) - set\(variable_nodes\)\) != len\(self.factors\):", "if len(set(self.nodes())) != len(self.factors):", "break"),
  ("contracts.c14", "FactorGraph.to_markov_model", "pgmpy/models/FactorGraph.py", r"        mm.add_nodes_from\(variable_nodes\)\n", "        mm.add_nodes_from(self.nodes())\n", "break"),
  ("contracts.c15", "BayesianNetwork.remove_cpds", "pgmpy/models/BayesianNetwork.py", r"self.cpds.remove\(cpd\)", "self.cpds.clear()", "break"),
+ ("contracts.c15", "MarkovNetwork.add_factors", "pgmpy/models/MarkovNetwork.py", r"set\(factor.variables\) - set\(factor.variables\).intersection\(\n                set\(self.nodes\(\)\)\n            \)", "set(factor.variables[1:]) - set(self.nodes())", "break"),
 ]
 
 
